@@ -66,7 +66,44 @@ def classify(prog, ev):
     return cls
 
 
+def repair_model(ck, thorough):
+    """tier B: the model of jls_core_repair_fsr (JlsRepair.tla on top of JlsWriter.tla) on every crash image of the
+    writer model's chunk sequence, for two geometries"""
+    sc = C.scratch()
+    for name, geo, mx in (("a", (4, 2, 4, 2), 96 if thorough else 64), ("b", (6, 2, 6, 3), 150 if thorough else 90)):
+        cfg = os.path.join(sc, "JlsRepairMC_%s.cfg" % name)
+        open(cfg, "w").write("SPECIFICATION Spec\nCONSTANTS\n  Spd = %d\n  Sdf = %d\n  Eps = %d\n  Sumdf = %d\n  MaxSamples = %d\nINVARIANT Inv\nCHECK_DEADLOCK FALSE\n"
+                             % (geo + (mx,)))
+        r = C.tlc("JlsRepairMC", cfg, timeout=1500, heap="6g")
+        if not ck.add_mc("JlsRepair spd=%d sdf=%d eps=%d sumdf=%d, %d samples (every crash image of the writer model's chunk sequence, last chunk attached or "
+                         "not: the resumed writer lists and summarises every reachable block exactly once, every sample is found)" % (geo + (mx,)), r):
+            ck.violation({"where": "model", "config": "JlsRepairMC-" + name, "invariant": r.violated, "reason": "JlsRepair.tla violates " + str(r.violated)})
+        for inv in ("SomeAppended", "SomeDead"):
+            cfg2 = os.path.join(sc, "JlsRepairMC_%s_%s.cfg" % (name, inv))
+            open(cfg2, "w").write(open(cfg).read().replace("INVARIANT Inv", "INVARIANT " + inv))
+            r2 = C.tlc("JlsRepairMC", cfg2, timeout=600, heap="4g", workers=2)
+            if r2.violated != inv:
+                raise C.ToolFailure("JlsRepairMC is vacuous: %s is not violated (%s)" % (inv, r2.violated))
+
+
+def repair_conformance(ck, trace, prop):
+    nrep = sum(1 for l in open(trace) if l.startswith('{"e":"RepSeq"'))
+    if nrep == 0:
+        ck.log("tier-B conformance with JlsRepair.tla: no image qualified")
+        return
+    v = C.validate_trace_parallel("JlsRepairTrace", "JlsRepairTrace.cfg", trace, parts=12, timeout=2400, heap="4g")
+    ck.log("tier-B conformance with JlsRepair.tla: %d crash images (FSR chunk sequence before / after the repairing open), %d differ from the model" % (nrep, len(v.rejections)))
+    ck.cov["repair_images_compared"] = nrep
+    if v.rejections:
+        ck.cov["design_conformance"] = "drift"
+        print("MODEL-DRIFT property=%s %d crash image(s): the repairing open did not produce the chunk sequence of JlsRepair.tla (first: execution %s line %s: %s)"
+              % (prop, len(v.rejections), v.rejections[0][0], v.rejections[0][1], v.rejections[0][2]))
+
+
 def run_crash(ck, P, tag, in_scope):
+    for p_ in P:
+        if p_.get("crash"):
+            p_["crash"]["repseq"] = True
     trace, abnormal = runner.run_programs(P, seed=C.seed(), tag=tag, per_program_timeout=300)
     nev = sum(1 for _ in open(trace))
     nobs = sum(1 for l in open(trace) if l.startswith('{"e":"CrashObs"'))
